@@ -1,7 +1,7 @@
 (* Extract.v — OCaml extraction of the executable model (ExtrOcamlBasic only: bool, option, list,
    prod, unit, sumbool map to OCaml's; N, positive, nat stay the extracted inductive types). *)
 From Coq Require Extraction ExtrOcamlBasic.
-From CsModel Require Import Base Green Builder BuilderSpec BuilderProofs Interner Red Nav GreenEq Replace TokenText Preorder Fmt Serde Extracted.
+From CsModel Require Import Base Green Builder BuilderSpec BuilderProofs Interner Red Nav GreenEq Replace TokenText Preorder Fmt Serde Derive AutoTrait Extracted.
 Extraction Language OCaml.
 Extraction "model.ml"
   utf8_width byte_len text_eqb
@@ -10,6 +10,8 @@ Extraction "model.ml"
   gi_next gi_next_back gi_nth gi_nth_back gi_last gi_fold gi_rfold replace_at
   abbrev abbrev_len abbrev_lo abbrev_hi debug_lines display_of
   ser_events ser_data deser_tree attach serde_token_text_ty
+  is_send is_sync constructible node_send_bounds node_sync_bounds ctor_resolver_bounds green_token_unconditional
+  expand from_raw into_raw static_text_of
   text_eq text_eq_old
   nav_exec nav_run
   subr offset_of len_at is_node_at kids parent_of ancestors
